@@ -588,42 +588,43 @@ func c01R6(c *Ctx, r *Report) {
 		// must be reachable only across !(reportCnt < execCnt) and !(waiting > 0).
 		// We identify the two comparisons structurally: a signed int LSS between two phi counters, and GTR of a phi with const 0.
 		// execCnt is the counter incremented next to the launch of a routine; the other counter it is compared with counts reports
-		isExec := func(v ssa.Value) bool {
-			ph, ok := v.(*ssa.Phi)
-			if !ok || !isIntCounter(v) {
-				return false
-			}
-			for _, e := range ph.Edges {
-				if bo, ok := e.(*ssa.BinOp); ok && bo.Op == token.ADD {
-					launch := false
-					for _, in := range bo.Block().Instrs {
-						if ci, ok := in.(ssa.CallInstruction); ok {
-							switch calleeName(ci.Common()) {
-							case "modules.Module.prep", "modules.Module.start", "modules.Module.stop":
-								launch = true
-							}
-						}
-					}
-					if launch {
+		launchIn := func(b *ssa.BasicBlock) bool {
+			for _, in := range b.Instrs {
+				if ci, ok := in.(ssa.CallInstruction); ok {
+					switch calleeName(ci.Common()) {
+					case "modules.Module.prep", "modules.Module.start", "modules.Module.stop":
 						return true
-					}
-				}
-				if ph2, ok := e.(*ssa.Phi); ok && ph2 != ph {
-					for _, e2 := range ph2.Edges {
-						if bo, ok := e2.(*ssa.BinOp); ok && bo.Op == token.ADD {
-							for _, in := range bo.Block().Instrs {
-								if ci, ok := in.(ssa.CallInstruction); ok {
-									switch calleeName(ci.Common()) {
-									case "modules.Module.prep", "modules.Module.start", "modules.Module.stop":
-										return true
-									}
-								}
-							}
-						}
 					}
 				}
 			}
 			return false
+		}
+		// a value counts launches if it is incremented next to a launch, or is a sum/merge involving such a value
+		var execDerived func(v ssa.Value, seen map[ssa.Value]bool) bool
+		execDerived = func(v ssa.Value, seen map[ssa.Value]bool) bool {
+			if seen[v] || len(seen) > 40 {
+				return false
+			}
+			seen[v] = true
+			switch x := v.(type) {
+			case *ssa.Phi:
+				for _, e := range x.Edges {
+					if execDerived(e, seen) {
+						return true
+					}
+				}
+			case *ssa.BinOp:
+				if x.Op == token.ADD {
+					if launchIn(x.Block()) {
+						return true
+					}
+					return execDerived(x.X, seen) || execDerived(x.Y, seen)
+				}
+			}
+			return false
+		}
+		isExec := func(v ssa.Value) bool {
+			return isIntCounter(v) && execDerived(v, map[ssa.Value]bool{})
 		}
 		isReport := func(v ssa.Value) bool { return isIntCounter(v) && !isExec(v) }
 		pendingGuards := relGuards("not(reportCnt < execCnt)", isReport, isExec, func(rep, exec int64) bool { return rep >= exec })
@@ -655,6 +656,31 @@ func c01R6(c *Ctx, r *Report) {
 				return
 			}
 			k++
+			// a merged result (error on one edge, success on another) is judged per incoming success edge
+			if ph, isPhi := v.(*ssa.Phi); isPhi && ph.Block() == ret.Block() {
+				for gi, gs := range [][]Guard{pendingGuards, waitingGuards} {
+					gname := []string{"not(reportCnt < execCnt)", "not(waiting > 0)"}[gi]
+					okAll := true
+					for i, e := range ph.Edges {
+						isErr := true
+						for _, l := range c.Leaves(e) {
+							_, isErrorf := isCallTo(l, "fmt.Errorf")
+							if !isErrorf && !fieldLoadOf(l, "modules.report", "err") {
+								isErr = false
+							}
+						}
+						if isErr {
+							continue
+						}
+						if !phiEdgeGuardedAny(fn, ph, i, gs) {
+							okAll = false
+						}
+					}
+					r.Check(okAll, rule, fmt.Sprintf("%s / success return #%d / guard %s", name, k, gname), "every success edge of the merged result passes the guard",
+						fmt.Sprintf("return at %s can yield success without passing [%s]", c.Pos(ret.Pos()), gname))
+				}
+				return
+			}
 			c.RequireAny(r, rule, fmt.Sprintf("%s / success return #%d", name, k), fn, ret, "not(reportCnt < execCnt)", pendingGuards)
 			c.RequireAny(r, rule, fmt.Sprintf("%s / success return #%d", name, k), fn, ret, "not(waiting > 0)", waitingGuards)
 		})
@@ -669,6 +695,12 @@ func isIntCounter(v ssa.Value) bool {
 	if !ok || bt.Kind() != types.Int {
 		return false
 	}
-	_, isPhi := v.(*ssa.Phi)
-	return isPhi
+	switch x := v.(type) {
+	case *ssa.Phi:
+		return true
+	case *ssa.BinOp:
+		// counter += n, compared right away
+		return x.Op == token.ADD
+	}
+	return false
 }
